@@ -227,10 +227,12 @@ def granular(chk, rng, quick):
 KNOB_SETS = [{}, {}, {}, {"shadow": True}, {"unknown_array": True}, {"intrinsic_named": True},
              {"labelled_bare_call": True, "p_label": 0.3}, {"format_nospace": True}, {"assoc_expr": True},
              {"goto_expr": True}, {"shadow": True, "p_label": 0.2}, {"intrinsic_named": True, "shadow": True, "p_label": 0.1},
-             {"intrinsic_named": True, "prefix_stmt": 0.35}]
+             {"intrinsic_named": True, "prefix_stmt": 0.35}, {"rebind_assoc": 0.3}]
 # in every run: projects in which the only reference of a unit to a function spelled like an INTRINSICS entry stands
 # in a statement that begins with a longer name (`rank_local = rank(1)`, `10 time_v = time()`, ...)
-FORCED_KNOBS = [{"intrinsic_named": True, "prefix_stmt": 1.0, "p_case": 0.0}, {"intrinsic_named": True, "prefix_stmt": 1.0}]
+# ... and projects with nested ASSOCIATE constructs whose inner one declares the outer associate name again
+FORCED_KNOBS = [{"intrinsic_named": True, "prefix_stmt": 1.0, "p_case": 0.0}, {"intrinsic_named": True, "prefix_stmt": 1.0},
+                {"rebind_assoc": 1.0, "p_case": 0.0}, {"rebind_assoc": 1.0}, {"rebind_assoc": 0.7}]
 
 
 def unit_term(tb_ford, tb_true, srcs, impl, asts, strict=True):
@@ -294,7 +296,7 @@ def respace(rng, text):
 def end_to_end(chk, rng, nproj):
     cases = []
     stats = {"projects": 0, "units": 0, "ford_errors": 0, "stmts": 0, "respaced_projects": 0, "lower_projects": 0,
-             "prefix_stmt_units": 0}
+             "prefix_stmt_units": 0, "rebind_assoc_units": 0}
     kinds = {}
     for k in range(nproj + len(FORCED_KNOBS)):
         knobs = dict(FORCED_KNOBS[k] if k < len(FORCED_KNOBS) else rng.choice(KNOB_SETS))
@@ -330,6 +332,7 @@ def end_to_end(chk, rng, nproj):
                           {k: v for k, v in knobs.items() if k != "respace"}, strict))
             stats["units"] += 1
             stats["prefix_stmt_units"] += bool(unit.get("prefix_stmt"))
+            stats["rebind_assoc_units"] += bool(unit.get("rebind_assoc"))
             stats["stmts"] += len(srcs)
             for s_ in asts:
                 k_ = s_[3][0] if s_[0] == "form" else s_[0]
